@@ -769,6 +769,34 @@ func c08Long(c *core.Ctx, i int64, kind, k int) {
 		}
 		c.Count("long_program_diagnostics_decoded", int64(len(diags)))
 		c.Nontrivial(core.Hash("long-diags", k))
+	case 3:
+		// a child block as an operand: the operators refuse it; '§' marks where the failing operation's last token ends
+		srcs := []string{
+			"def a { def b {}\n print not (b == 1§) }", "def a { def b {}\n print not (\n b == 1§\n ) }", "def a { def b {}\n x = not (1 != b§) and 2 }",
+			"def a { def b {}\n x = b + 1§ }", "def a { def b {}\n x = - b§ }", "def a { def b {}\n x = not not (b < 2§) }", "def a { def b {}\n x = (b * 2§) }",
+			"def a { def b {}\n print not (b == b§)\n}", "def a { def b { y = 1 }\n x = 1 + not (2 == b§)\n}", "def a { def b {}\n x = not (b == 1§\n\n\n) }",
+			"def a { def b {}\n x = \"s\" + b§ }", "def a { def b {}\n var v = b\n x = not (v == nil§) }",
+		}
+		marked := srcs[k%len(srcs)]
+		want := strings.Index(marked, "§")
+		src := []byte(strings.Replace(marked, "§", "", 1))
+		res := InterpretReused(src)
+		c.Eval(1)
+		if res.Panic != "" {
+			c.Violation(panicSig(res.Panic, res.Stack), "panic on a block operand: "+res.Panic, map[string]any{"source": string(src)})
+			return
+		}
+		if res.Err == nil {
+			c.Count("block_operand_programs_without_error", 1)
+			return
+		}
+		_, pos, ok := lang.ClassOfRuntimeError(res.Err.Error())
+		if exp := posString(src, want); !ok || pos != exp {
+			c.Violation("runtime-error-position", fmt.Sprintf("%q: error %q, the failing operation's last token ends at %s", src, res.Err, exp), map[string]any{"source": string(src)})
+			return
+		}
+		c.Count("block_operand_error_positions_checked", 1)
+		c.Nontrivial(core.Hash("block-operand", k))
 	default:
 		nc := []int{10, 239, 240, 241, 245, 2287, 2288, 2400}[k%8]
 		tail := []string{"def blk { x = 1 + missing_name", "def blk { y = 2\n z = missing_name", "bind missing_type -> struct", "print \"s\" * 2 - 1"}[k/8%4]
@@ -920,7 +948,7 @@ func init() {
 		Rule: "position monitor: (i) decode check on every diagnostic with the harness's own newline index: L:C designates an offset of the source, L-1 newlines precede it, the quoted token is the source text ending exactly there, 'at end' is the end of input; (ii) prediction check: first compile diagnostic at the end of the first non-viable token (independent recognizer), runtime errors and warnings at the end of the last token of the failing operation (reference model + renderer's token spans); " +
 			"(iii) the program's line table equals the newline offsets of the source, one position per code byte, each a token end; (iv) the same diagnostics, positions and line table under chunked ParseFile, the same runtime error after dump and load. " +
 			"Workload: generated programs (runtime errors and warnings at every statement), token-damaged programs (compile errors everywhere), rendered with hostile multi-line layout (blank lines, CR LF, CR-only, comments, multi-byte characters before the error) and padded by 0/250/2300/4100/8200/68000 bytes so that offsets cross the read page and every varint class. " +
-			"distinct = hash of source; non-trivial = at least one position decoded or predicted Also: 34 programs failing exactly at the operand-stack limit with the position expected at the operand whose push finds the stack full; value-less block names (the diagnostic must sit at the name); the dump/load route alternates LoadProg with Prog.Load into a Prog that held another program. Long programs: a 1300-line program failing at line L for every L; 1100/2100/3100 lines each with a syntax error of its own (every diagnostic decoded, one per line); 10..2400 constants in front of an operation failing at an operand fetched through a 1-, 2- or 3-byte index, parsed and after dump and load.",
+			"distinct = hash of source; non-trivial = at least one position decoded or predicted Also: 34 programs failing exactly at the operand-stack limit with the position expected at the operand whose push finds the stack full; value-less block names (the diagnostic must sit at the name); the dump/load route alternates LoadProg with Prog.Load into a Prog that held another program. Long programs: a 1300-line program failing at line L for every L; 1100/2100/3100 lines each with a syntax error of its own (every diagnostic decoded, one per line); 10..2400 constants in front of an operation failing at an operand fetched through a 1-, 2- or 3-byte index, parsed and after dump and load; a child block as operand of every operator kind, also under 'not (...)' and across lines.",
 		Assumptions:   []string{"DESIGN §5.4 'Positions' is the location rule"},
 		MinNontrivial: 1000,
 		Run: func(c *core.Ctx) {
@@ -934,15 +962,17 @@ func init() {
 					c08Limits(c, i, int(i))
 					continue
 				}
-				if i < 34+26+9+32 {
+				if i < 34+26+9+32+12 {
 					c.Begin(i)
 					switch k := int(i) - 34; {
 					case k < 26:
 						c08Long(c, i, 0, k)
 					case k < 26+9:
 						c08Long(c, i, 1, k-26)
-					default:
+					case k < 26+9+32:
 						c08Long(c, i, 2, k-26-9)
+					default:
+						c08Long(c, i, 3, k-26-9-32)
 					}
 					continue
 				}
